@@ -7,6 +7,12 @@ TRUST = ("Trusted base: Go runtime and testing/synctest (quiescence + fake clock
          "evaluators. Preemption at Go statement / loop / function entry / VM instruction granularity; sampled, not enumerated.")
 
 CLAIMED = {
+    "C10": dict(
+        engine="E-KNOB",
+        technique="deterministic simulation with randomised tuning knobs and fault injection: knob vector (stack sizes, pool, queue, presize) drawn per run, forced value-stack reallocations at seeded calls (failpoint), seeded schedules; differential oracle against the default configuration",
+        text="Deterministic programs that stress what the knobs touch (deep recursion with live closures, generators resumed at other depths, async DAGs, large literals, bulk symbols) run under a knob vector drawn per run and up to five forced reallocations of the value stack at PRNG-chosen calls; stdout and error must equal the run at default sizes unless a stack limit is reported. Initial stacks below 64 slots are a listed known finding. Exploration level.",
+        design_ref="DESIGN.md 5.7",
+    ),
     "C11": dict(
         engine="E-CHK",
         technique="deterministic simulation: seeded token scheduler over the instrumented type checker and compiler, PRNG-controlled map order, differential oracle against the sequential configuration",
@@ -49,10 +55,16 @@ CLAIMED = {
         text="Each case compiles a non-terminating shape the way the REPL does, runs it in the main thread or a go thread, cancels the context at a PRNG-chosen tick (immediately if everything is blocked) and then requires, under fair round-robin, that the main thread ends with ExecutionAbortedError and every go thread ends within 600000 scheduler ticks. Context-less blocking operations (sync await, WaitGroup#wait, Mutex#lock, sleep) are listed known findings keyed by shape. Exploration level.",
         design_ref="DESIGN.md 5.6",
     ),
+    "C34": dict(
+        engine="E-TEST",
+        technique="deterministic simulation: the real test runner driven with generated suite trees and filters under seeded shuffle seeds, reporter stalls and event-queue capacities; exactly-once and exit-status oracle against a reference selection",
+        text="Slice of the property: exactly-once execution of the selected cases and the exit status, for every shuffle seed, reporter interleaving and event channel capacity. Generated suite trees with grep and path[:line] filters run through the real ext/std/test runner with the simulator's own recording reporter as a task that drains the bounded channel as slowly as the scheduler lets it. An empty selection exiting with failure is a listed known finding. Exploration level.",
+        design_ref="DESIGN.md 5.9",
+    ),
 }
 
 PLANNED = {pid: "simulation check designed in DESIGN.md section 5, engine not built yet" for pid in
-           ["C01", "C10", "C34"]}
+           ["C01"]}
 
 NA = {
     "C02": "pure function of one program run by one thread: no schedule, clock or fault in what it quantifies over (type soundness per program)",
